@@ -9,14 +9,14 @@ CLAIMED = {
     text="ORDER/TABLE/WHO rules over misc/mke2fs.c and what it reaches: the quota files (a snapshot of all usage) are written after every step that can still allocate an inode or block (orphan file, huge files, -d population) and only the close follows, usage computed before they are written; "
          "each feature owning an on-disk object (resize_inode, has_journal, orphan_file, mmp, quota, bigalloc fix-up) has its creator call in main, conditional on that feature, and a creator's failure ends the run non-zero; root directory, lost+found, reserved-inode marks and bad-block inode are created on every full run after table allocation; "
          "PRS dominates every write-capable call of main; every wall-clock read reachable from main yields to fs->now (E2FSPROGS_FAKE_TIME / SOURCE_DATE_EPOCH) or is a listed non-persistent use (one reason each), the wrapper ext2fsP_get_time prefers fs->now; UUID and hash seed are generated only when none was given (or overwritten by the given one). "
-         "`mke2fs -n` is decided under C13.d and backup wiring under C20. Decides ordering/wiring/determinism-source clauses for every configuration; does NOT decide geometry arithmetic (group and table placement, overhead, free counts): seed C07-1 (wrong count passed to an accounting helper) is of that kind and is not caught.",
+         "blocks temporarily un-marked in the block map (bad blocks, for the overhead computation) are marked again before anything allocates; `mke2fs -n` is decided under C13.d and backup wiring under C20. Decides ordering/wiring/determinism-source clauses for every configuration; does NOT decide geometry arithmetic (group and table placement, overhead, free counts): seed C07-1 (wrong count passed to an accounting helper) is of that kind and is not caught.",
     ref="§8.6 C07", technique="static analysis: call-graph MAY summaries after an ordering point, feature/creator table with control dependence and error-exit classification, who-may-call for time sources with an exemption table"),
  "C10": dict(
     text="Typestate/ORDER/PAIRING rules over lib/ext2fs/{link,unlink,mkdir}.c, debugfs/debugfs.c, misc/create_inode.c and every directory-iterator callback of the tree: a callback that changed an entry reports DIRENT_CHANGED on every non-error return; "
          "a callback that merges an entry into the predecessor it remembers is run with DIRENT_FLAG_INCLUDE_EMPTY; every increment of a link count is dominated by a test against EXT2_LINK_MAX (dir_nlink rule for directories, refusal for files); "
          "ext2fs_mkdir writes inode and directory content before linking the name, updates the parent only after the link succeeded, refuses an over-full parent before any accounting and rolls the accounting back on every later failure; "
          "debugfs removal sets dtime, releases data blocks (whenever the inode has any), the extended-attribute block and the inode on every path, rmdir tests emptiness before touching anything and lowers the parent's count; link/unlink return iteration errors and report 'nothing done'. "
-         "Decides the bookkeeping for every operation history and directory size; does NOT decide hash order, leaf/index splitting or rec_len arithmetic, nor that listing equals a model.",
+         "(the INCLUDE_EMPTY premise also covers callbacks that can report DIRENT_CHANGED for an entry whose inode is 0, in every tool); every site hashing directory names passes a version adjusted for the unsigned-hash flag. Decides the bookkeeping for every operation history and directory size; does NOT decide hash order, leaf/index splitting or rec_len arithmetic, nor that listing equals a model.",
     ref="§8.6 C10", technique="static analysis: path-sensitive typestate over iterator callbacks, flag-argument rule derived from callback behaviour, dominance, edge-gated must-pass, roll-back pairing"),
  "C15": dict(
     text="SIBLING/ORDER/ERRFLOW rules over lib/ext2fs/ext_attr.c: the space accounting of ext2fs_xattr_set and the layout of ext2fs_xattrs_write derive the in-inode capacity from the same chain (i_extra_isize, else s_want_extra_isize, else the same constant), the chosen value is stored, the accounting reserves magic word + null entry; "
@@ -36,7 +36,7 @@ CLAIMED = {
          "silently skipped for nothing but UNINIT flags / zero location / absent feature; per in-use inode the xattr block; all blocks of directories, symlinks, journal, every quota type (count taken from enum quota_type) and the orphan file; "
          "every other inode is walked whenever the extents flag or any indirect root i_block[IND..TIND] is set (index sets evaluated through one helper level and constant loop bounds), and the callback marks every mapping block; walks are not DATA_ONLY; "
          "both writers scan to ext2fs_blocks_count and copy exactly the marked blocks; the source is opened without EXT2_FLAG_RW; the qcow2-to-raw reader bounds table offsets by the qcow2 file's size and extends the output only when shorter; no 32-bit ~mask on 64-bit offsets. "
-         "'Silently skipped' is computed (conditions whose other arm fails the operation are not restrictions). Decides that no metadata class is left out on any file system; does NOT decide qcow2 L1/L2/refcount arithmetic or byte identity itself.",
+         "zero-block skipping in the raw writer is enabled only for a target that did not exist before (raw targets are not truncated); 'Silently skipped' is computed (conditions whose other arm fails the operation are not restrictions). Decides that no metadata class is left out on any file system; does NOT decide qcow2 L1/L2/refcount arithmetic or byte identity itself.",
     ref="§8.6 C19", technique="static analysis: exhaustiveness over source-enumerated classes, control-dependence purity with error-exit classification, edge-gated must-pass, constant index-set evaluation, operand-width facts"),
  "C09": dict(
     text="Typestate/ORDER/WHO rules over lib/ext2fs/fileio.c and the allocation callers, decided on every CFG path: the handle's one-block buffer changes block only after it was written out and invalidated; "
@@ -59,62 +59,62 @@ CLAIMED = {
          "(directly; through a local, struct field or context flag bit every non-zero store of which is itself gated; through a helper derived to return such an answer; or because every call site of the enclosing function, callbacks included, is gated), "
          "or in an explicitly requested mode (-D, bmap2extent, unshare_blocks, discard), or on a listed path with its reason (orphan processing and VALID_FS bookkeeping additionally shown to sit behind the read-only test); "
          "no function of pass5.c reaches an inode/dir/extent/xattr writer (positive control on pass2.c); a checksum-only mismatch leads to rewriting, not clearing; extent merges require equal UNINIT flags. "
-         "On a consistent filesystem no problem is raised, so no gated mutator runs. Decides gating and layering; not that -D / extent rebuilding preserve names and bytes.",
+         "The counters behind the inode scan's per-block garbage verdict are zeroed whenever the scan leaves a block; a library request that can fail with a checksum error and whose failure a pass discards without a report is made with checksum errors ignored. On a consistent filesystem no problem is raised, so no gated mutator runs. Decides gating and layering; not that -D / extent rebuilding preserve names and bytes.",
     ref="§4 C05", technique="static analysis: edge-gating reachability with derived answer functions / gated flags, interprocedural call-site propagation, who-may-call"),
  "C01": dict(
     text="ORDER/PURITY/PATH rules over e2fsck: every in-place change of the live block/inode bitmap is followed (or dominated) by its dirty-mark on every path on which the repair completes, with open obligations passed to call sites and callback receivers up the call graph; "
          "fix_problem's declined-answer bookkeeping and the exit-status computation (shared with C02.c); pass table order 1<2<3<4<5 with pass 5 last, RUN_RETURN tested before each pass, restart honoured; end-of-run bitmaps < flush < io flush < close on every writable path with PR_FATAL failure rows; "
          "the answer of every prompting fix_problem() is used (228 sites); bitmap checksum verification in pass 5 may be skipped only for a dirty bitmap of the same kind; removal of the orphan file releases or re-creates its inode in e2fsck and tune2fs alike. "
-         "Decides the bookkeeping that turns 'repair applied' into 'repair on disk and reported'; not that each repair is semantically right.",
+         "every directory-hash site of e2fsck (rehash fill, duplicate rename, pass 2) passes a hash version adjusted for the unsigned-hash flag, so a rebuilt htree verifies on the next run. Decides the bookkeeping that turns 'repair applied' into 'repair on disk and reported'; not that each repair is semantically right.",
     ref="§4 C01", technique="static analysis: must-pass-through with interprocedural obligation passing, MUST summaries, path-sensitive exploration, table checks"),
  "C16": dict(
     text="Two structural necessary conditions only (set semantics over histories is not decided): (a) every block-number entry of the generic 64-bit bitmap layer converts to cluster units before dispatching to the backend slot "
          "(single entries shift the argument; range entries shift the start, round the end up by one cluster minus one and recompute the length; find_first_* shift bounds in and the result out), range-checks the converted value, and the two cluster-unit entries do not shift; "
          "both backends define every slot called without a NULL test; (b) in the rbtree backend cached cursors never outlive what they describe: every tree insertion is preceded on all paths through all callers by a reset of rcursor_next (or of the read cursor), "
-         "every erase is surrounded by cursor invalidation, rb_free_extent nulls each cursor that equals the freed extent, functions installing a new root reset all cursors.",
+         "every erase is surrounded by cursor invalidation, rb_free_extent nulls each cursor that equals the freed extent, functions installing a new root reset all cursors.; (c) unit-step ascending loops over bit positions bounded by the inclusive end/real_end fields (directly or through locals) compare with <= - the rule that decides agreement of the 32- and 64-bit twins; (d) set_range assigns the range in both backends (the tree drops the old content of the range before inserting runs).",
     ref="§4 C16", technique="static analysis: dominance / must-pass-through over clang CFGs with caller propagation, vtable slot completeness"),
  "C20": dict(
     text="ORDER/GUARD/PURITY/WHO rules: tune2fs clears EXT2_FLAG_MASTER_SB_ONLY before every changer, resize2fs before the final close, mke2fs's handle never has it, the flag's setters are a listed set; "
          "e2fsck's end-of-run comparison reads a prescribed backup, compares the feature words, block/inode counts and UUID (ignore masks only run-time bits), is made whenever the fs is valid and writable and its result alone decides the refresh, with nothing re-setting the flag before the flush; "
          "in ext2fs_flush2 the backup superblock / descriptor writes over all groups are restricted by nothing but the documented flags and the computed locations; writer, reader and checker share ext2fs_bg_has_super; "
-         "the meta_bg descriptor location used when opening from a backup pairs first block and has_super of the same group on every path; opening from a backup clears the UNINIT flags unconditionally. Decides the refresh/write wiring; not the placement arithmetic.",
+         "the meta_bg descriptor location used when opening from a backup pairs first block and has_super of the same group on every path; opening from a backup clears the UNINIT flags unconditionally. resize2fs reserves the area of the new last-group backup on every path on which block-move planning succeeds; e2fsck's backup search re-initialises the ext2fs_list_backups iterator for every block size it tries. Decides the refresh/write wiring; not the placement arithmetic.",
     ref="§4 C20", technique="static analysis: dominance, control-dependence purity, who-may-store, path-sensitive symbolic pairing over clang CFGs"),
  "C14": dict(
     text="Static rules over lib/ext2fs/csum.c, the library read/write paths, e2fsck and the journal code: on every read path the verifier is called and, if it keeps failing and checksum errors are not ignored, every return yields the class's error (path-sensitive); "
          "on every write path the setter dominates the device write; verify/set of each class share the compute function, the stored field and the feature gate; each CRC chain starts at the prescribed seed and is threaded through every call, "
          "fixed lengths equal clang's record layout, variable lengths have no constant clamp and cover the object in place; fs->csum_seed has one writer; crc32c-LE, crc32-BE (8x256 each) and crc16 tables equal their algebraic definitions (4352 entries evaluated by the checker); "
-         "every library checksum error code and every checksum-mismatch problem row leads to a non-zero -fn verdict. Decides wiring, symmetry, fixed-range and table clauses; not variable-range arithmetic or the CRC loop for all lengths.",
+         "every library checksum error code and every checksum-mismatch problem row leads to a non-zero -fn verdict. between a checksum setter and the write request nothing stores into the checksummed object or a buffer aliasing it (library writers and the debugfs journal writer: escape before tag checksum); the conditions under which a read path skips its verifier equal the recorded set. Decides wiring, symmetry, fixed-range and table clauses; not variable-range arithmetic or the CRC loop for all lengths.",
     ref="§4 C14", technique="static analysis: path-sensitive exploration, dominance, sibling comparison, record-layout constants, constant-table evaluation"),
  "C11": dict(
     text="TABLE / call-graph / ORDER rules: the checksummed classes are enumerated from the checksum fields of the on-disk record types and rewrite_metadata_checksums() must reach a storer of each (call-site-sensitive callbacks) or must dirty-mark the owner whose flush routine does; "
          "each inode kind is selected by its own request bit and every seed-changing arm (metadata_csum on/off, stale csum_seed, UUID change) requests all bits; with a rewrite requested no path of main() reaches the close without performing it (error exits excepted); "
          "every FEATURE_ON/OFF/CHANGED arm names a bit allowed by ok_features/clear_ok_features and every allowed bit has a handler arm or is a listed flag-only feature; seed-changing arms are dominated by check_fsck_needed(). "
-         "Decides coverage and table agreement for every request sequence; not inode-size growth, journal or quota creation.",
+         "in the inode-size growth scan no inode copy taken before the block walk is written back after it without a fresh read. Decides coverage and table agreement for every request sequence; not inode-size growth, journal or quota creation.",
     ref="§4 C11", technique="static analysis: record-layout enumeration, call-graph reachability with call-site-sensitive callbacks, initialiser-table agreement, gated reachability over clang CFGs"),
  "C03": dict(
     text="GUARD/ORDER rules over the recovery core as built for e2fsck and for debugfs, and a SIBLING rule over the two front-ends: filesystem writes only in PASS_REPLAY, revoke scan only in PASS_REVOKE, end of log decided only in PASS_SCAN, "
          "passes in order each only after the previous succeeded (path-sensitive); each replay write gated by !test_revoke(block, transaction being replayed) and a verifying tag checksum; the revoke table keeps the newest revoking transaction and "
          "a later transaction is not revoked (comparator argument roles); bad magic / wrong sequence / unknown type end the scan; escape restore between copy and write; needs_recovery cleared after recovery; "
-         "effect skeletons (device I/O calls, stores to journal state) of 15 sibling function pairs agree up to a listed set of accepted differences. Decides the control structure for every journal content; not tag-size/wrap arithmetic or checksum values.",
+         "effect skeletons (device I/O calls, stores to journal state) of 15 sibling function pairs agree up to a listed set of accepted differences. the old-style running crc32 is reset on every path that accepts a commit block. Decides the control structure for every journal content; not tag-size/wrap arithmetic or checksum values.",
     ref="§4 C03", technique="static analysis: edge-gating reachability over clang CFGs, comparator-role checks, path-sensitive exploration, sibling effect-skeleton comparison"),
  "C02": dict(
     text="TABLE and path rules: every problem code that can reach fix_problem() (constants, constant-valued locals, constants passed to helpers) has exactly one problem_table row, "
          "the zero terminator is last, PR_AFTER_CODE/latch references resolve; per row the (has prompt, PR_NO_OK) pair equals the reference recorded from the pinned tree; "
          "fix_problem un-marks the fs valid on a declined answer restricted only by PR_NO_OK/prompt, -n answers no, nobody re-marks valid after the run started and no store to fs->flags can resurrect the VALID bit "
          "(wholesale restores are checked against calls that may un-mark); main or-s FSCK_UNCORRECTED into the exit status whenever the fs is not valid and nothing clears it. "
-         "Decides that every inconsistency e2fsck detects yields a non-zero -fn exit; does not decide that passes 1-5 detect every inconsistency.",
+         "in pass 1D only the bad-blocks and resize inodes are exempt from the un-mark that makes multiply-claimed blocks a non-zero verdict. Decides that every inconsistency e2fsck detects yields a non-zero -fn exit; does not decide that passes 1-5 detect every inconsistency.",
     ref="§4 C02", technique="static analysis: initialiser-table consistency, constant resolution of call arguments, control dependence, who-may-store over the call graph"),
  "C08": dict(
     text="ORDER/WHO/GATED-EFFECT rules on every CFG path and over the resize2fs call graph: the EXT2_ERROR_FS store, dirty-mark and flush come in that order in resize_fs and dominate every write-capable call and the handle duplication; "
          "among all functions reachable from resize_fs only resize_fs clears the flag, after every phase, and only the final close follows; ext2fs_flush2 writes the primary superblock last with a flush before and after; "
-         "in main no refusal/no-op path between open and exit contains a write request, dirty-mark or superblock store. Decides the crash-marker and refused-request clauses for all crash points and requests; not relocation arithmetic.",
+         "in main no refusal/no-op path between open and exit contains a write request, dirty-mark or superblock store. the directory walk that renumbers inodes is shown unused entries too, because its callback forces a rewrite (new checksum seed) of every block before it looks at the entry (shared with C10.b). Decides the crash-marker and refused-request clauses for all crash points and requests; not relocation arithmetic.",
     ref="§4 C08", technique="static analysis: dominance / must-pass-through over clang CFGs, who-may-store over the call graph, gated-effect reachability"),
  "C12": dict(
     text="ORDER/GUARD/TABLE rules on every CFG path: each device-mutating slot of the I/O-manager vtable (computed from the unix manager's raw writes) is defined by the undo manager, "
          "saves old bytes before forwarding and never forwards after a failed save; first-write-wins bookkeeping in undo_write_tdb; FINISHED marker stored only by undo_close before the flushed final index write; "
          "six tools install the manager identically and open through it; re-open and e2undo validate header magic/CRC/geometry/features/superblock/key blocks/block CRCs before use, "
          "e2undo cannot bypass a comparison when not forced, performs all of them before the first device write and never writes under -n. "
-         "Decides the interposition/verification discipline for all tools and inputs; not the key/extent arithmetic.",
+         "a user-named undo file is never unlinked or truncated by any *_setup_tdb; whoever raises the key count of the current key block passes the block-full step before returning (the key array is indexed without a bound); write_undo_indexes has no successful return before the header write (which is what pushes saved data out of the undo file's cache before the device is overwritten); replay and re-open advance the cursor by the same function of key size and block size. Decides the interposition/verification discipline for all tools and inputs; not the key/extent arithmetic.",
     ref="§4 C12", technique="static analysis: vtable completeness, dominance, control dependence, path-sensitive exploration over clang CFGs"),
  "C17": dict(
     text="Static rules over lib/ext2fs/unix_io.c, undo_io.c, test_io.c, io_manager.c and rw_bitmaps.c decided on every CFG path: "
